@@ -93,6 +93,16 @@ func c11Catalogue() []c11Attack {
 		{ID: "schnorr/ed-keygen-wrong-dlog", Proto: edkgp(), B: 1, Round: 3, Kind: "rebuild", Guard: "Schnorr equation"},
 		{ID: "schnorr/ed-sign-wrong-dlog", Proto: edsg(), B: 0, Round: 3, Kind: "rebuild", Guard: "Schnorr equation"},
 		{ID: "schnorr/ec-sign-gamma-wrong-dlog", Proto: sg(), B: 1, Round: 5, Kind: "rebuild", Guard: "Schnorr equation"},
+		// a party configured with threshold+1: it deals a polynomial of degree t+1 (t+2 commitment points, all
+		// consistent with its commitment, proof and shares); the degree bound of the share check must refuse it
+		// duplicated ring-Pedersen parameters: B brings another party's (NTilde, h1, h2), verbatim or with the
+		// generators exchanged
+		{ID: "params/ring-pedersen-copied-by-last", Proto: map[string]interface{}{"proto": "ec-keygen", "n": 3, "t": 1}, B: 2, Round: 2, Kind: "input", Guard: "h1, h2 unique across parties"},
+		{ID: "params/ring-pedersen-copied-swapped", Proto: map[string]interface{}{"proto": "ec-keygen", "n": 3, "t": 1}, B: 2, Round: 2, Kind: "input", Guard: "h1, h2 unique across parties (either slot)"},
+		{ID: "params/ring-pedersen-copied-padded", Proto: map[string]interface{}{"proto": "ec-keygen", "n": 3, "t": 1}, B: 2, Round: 2, Kind: "input", Guard: "h1, h2 unique across parties as integers, whatever their encoding"},
+		{ID: "params/ring-pedersen-copied-by-first", Proto: map[string]interface{}{"proto": "ec-keygen", "n": 3, "t": 1}, B: 0, Round: 2, Kind: "input", Guard: "h1, h2 unique across parties"},
+		{ID: "config/ed-keygen-threshold+1", Proto: edkgp(), B: 2, Round: 3, Kind: "input", Guard: "dealer polynomial has degree t"},
+		{ID: "config/ec-keygen-threshold+1", Proto: map[string]interface{}{"proto": "ec-keygen", "n": 3, "t": 1}, B: 1, Round: 3, Kind: "input", Guard: "dealer polynomial has degree t"},
 	}
 }
 
@@ -237,6 +247,15 @@ func driveC11(rc *RunCtx) {
 	q := Secp.n
 	constructible := true
 	note := ""
+	if strings.HasPrefix(id, "config/") && strings.HasSuffix(id, "threshold+1") {
+		ThresholdHook = func(idx, t int) int {
+			if idx == bIdx {
+				return t + 1
+			}
+			return t
+		}
+		defer func() { ThresholdHook = nil }()
+	}
 	// ---- input corruption -------------------------------------------------------------------------------
 	rc.InputHook = func(stage string, data interface{}) {
 		if kind != "input" {
@@ -266,6 +285,19 @@ func driveC11(rc *RunCtx) {
 			case "params/ntilde-2047-bits":
 				pp.NTildei = new(big.Int).Rsh(NT, 1)
 				pp.NTildei.SetBit(pp.NTildei, 0, 1)
+			case "params/ring-pedersen-copied-by-last", "params/ring-pedersen-copied-by-first", "params/ring-pedersen-copied-swapped", "params/ring-pedersen-copied-padded":
+				// B brings another party's ring-Pedersen parameters (the dln proofs are not bound to a prover, so
+				// copies of the victim's proofs, or fresh ones from the copied exponents, verify)
+				victim := 0
+				if bIdx == 0 {
+					victim = len(pre) - 1
+				}
+				v := pre[victim]
+				pp.NTildei, pp.P, pp.Q = v.NTildei, v.P, v.Q
+				pp.H1i, pp.H2i, pp.Alpha, pp.Beta = v.H1i, v.H2i, v.Alpha, v.Beta
+				if id == "params/ring-pedersen-copied-swapped" {
+					pp.H1i, pp.H2i, pp.Alpha, pp.Beta = v.H2i, v.H1i, v.Beta, v.Alpha
+				}
 			case "params/paillier-2047-bits":
 				P, Q := primeWith(r, 1024, 3), primeWith(r, 1023, 3)
 				for new(big.Int).Mul(P, Q).BitLen() != 2047 {
@@ -332,6 +364,9 @@ func driveC11(rc *RunCtx) {
 	w := pr.W
 	B := w.Nodes[bIdx]
 	B.Byz = true
+	if kind == "input" {
+		w.TolerateCrashOf = B // B runs the real code on inputs it was never meant to see
+	}
 	ec := tss.S256()
 	fired := 0
 	// ---- announce: honest proofs, bad announced modulus ------------------------------------------------
@@ -410,6 +445,18 @@ func driveC11(rc *RunCtx) {
 			return em.Wire, true
 		}
 		switch {
+		case id == "params/ring-pedersen-copied-padded" && em.Type == "ecdsa.keygen.KGRound1Message":
+			// the copied generators in a non-minimal encoding (one leading zero byte): the same integers
+			nw := em.Wire
+			for _, f := range []string{"h1", "h2"} {
+				var err error
+				if nw, err = setBytesField(nw, f, append([]byte{0}, bytesField(nw, f)...)); err != nil {
+					rc.Fail("harness", "%v", err)
+					return em.Wire, true
+				}
+			}
+			w.Logf("FAULT %s sends the copied h1, h2 with a leading zero byte", B.Name)
+			return nw, true
 		case kind == "announce" && em.Type == "ecdsa.keygen.KGRound1Message":
 			nw, err := setBytesField(em.Wire, "paillier_n", announced.Bytes())
 			if err != nil {
@@ -641,6 +688,7 @@ func driveC11(rc *RunCtx) {
 		rc.Res.Sample = map[string]interface{}{"attack": id, "kind": kind, "guard": sc.Str("guard", ""), "outcome": outcome, "calibrated_session": calibrated, "note": note}
 	}()
 	// B's own code may fail on its corrupted inputs: that is not the verifier's business
+	bFailed := false
 	if w.Violation != nil {
 		bOnly := true
 		for _, ev := range w.Events {
@@ -648,13 +696,17 @@ func driveC11(rc *RunCtx) {
 				bOnly = false
 			}
 		}
-		if bOnly {
-			w.Violation = nil
-			outcome = "not_constructible"
-			note = "the deviating party's own code failed on its inputs"
+		if !bOnly {
 			return
 		}
-		return
+		// ... unless the honest parties went on to finish with what B had already sent: judged below
+		w.Violation = nil
+		bFailed = true
+		note = "the deviating party's own code failed on its inputs"
+	}
+	if B.Crashed {
+		bFailed = true
+		note = "the deviating party's own code failed on its inputs"
 	}
 	if !constructible || fired == 0 {
 		outcome = "not_constructible"
@@ -693,13 +745,17 @@ func driveC11(rc *RunCtx) {
 		}
 	}
 	if errs == 0 {
-		outcome = "accepted"
 		fin := 0
 		for _, n := range w.Nodes {
 			if n != B && len(n.Results) > 0 {
 				fin++
 			}
 		}
+		if bFailed && fin == 0 {
+			outcome = "not_constructible" // B broke down before the honest parties could finish or reject
+			return
+		}
+		outcome = "accepted"
 		rc.Fail("false-statement-accepted", "attack %s (guard: %s): no honest party rejected; %d honest parties finished", id, sc.Str("guard", ""), fin)
 		rc.Res.Violation.Key = "c11-accepted#" + id
 	}
